@@ -104,6 +104,28 @@ func (c *sqlController) end() []sqlStmtRec {
 
 var reTable = regexp.MustCompile(`(?i)(?:INTO|FROM|UPDATE)\s+"?([a-z_]+)"?`)
 
+// sqlWrites: the statements of q (outside "--" comments) that start with a data- or schema-changing keyword; a driver that
+// executes stacked statements would run them
+func sqlWrites(q string) []string {
+	var clean strings.Builder
+	for _, line := range strings.Split(q, "\n") {
+		if i := strings.Index(line, "--"); i >= 0 {
+			line = line[:i]
+		}
+		clean.WriteString(line + "\n")
+	}
+	var out []string
+	for _, st := range strings.Split(clean.String(), ";") {
+		up := strings.ToUpper(strings.TrimSpace(st))
+		for _, kw := range []string{"INSERT", "UPDATE", "DELETE", "DROP", "ALTER", "CREATE", "REPLACE", "TRUNCATE", "ATTACH", "PRAGMA"} {
+			if strings.HasPrefix(up, kw) {
+				out = append(out, strings.TrimSpace(st))
+			}
+		}
+	}
+	return out
+}
+
 func classify(q string) (kind, table string) {
 	s := strings.TrimSpace(q)
 	up := strings.ToUpper(s)
